@@ -64,6 +64,7 @@ def twin_runs(chk, stats):
         n = rng.randint(2, 4)
         if li % 5 == 1:
             spec["model"] = "mut_model"        # a model that writes into its theta argument
+            spec["E"] = 1 if (li // 5) % 2 == 0 else spec["E"]   # ensemble of one: no replication between sampler and model
         if li == 2:
             # more history than any size threshold inside a sampler (the GP sampler treats > 500 points specially)
             spec["kinds"] = [("halton", 505), ("gp", 2), ("uniform", 2)]
@@ -94,20 +95,49 @@ def twin_runs(chk, stats):
     return count
 
 
+def rl_twins(chk, stats):
+    """RL-scheduled line-ups whose agent really uses what it is told (epsilon-greedy on the rewards): losses in small units
+    (an improvement is lost when a loss is rounded to two decimals), an agent that explores at almost every step (its first
+    choice is drawn before anything else happens in a session), several constructor seeds."""
+    rng = chk.rng
+    quick = chk.tier == "quick"
+    count = 0
+    for j in range(3 if quick else 24):
+        spec = {"kinds": [("halton", 3), (rng.choice(["uniform", "rseq"]), 2), (rng.choice(["rseq", "bestbatch", "uniform"]), 2)],
+                "nparams": 2, "E": rng.randint(1, 2), "seed": rng.below(2**31), "loss": "minkowski", "rl": True,
+                "eps": 0.9 if j % 2 else 0.2}
+        if j % 4 != 3:
+            spec["model"] = "small_model"
+        n = 10
+        base = rl.run_segments(spec, [n], [])
+        for name, kw in [("same", {}), ("verbose", dict(verbose=True)), ("ctor-seeds", dict(ctor_seed_shift=17)),
+                         ("ctor-seeds", dict(ctor_seed_shift=18)), ("ctor-seeds", dict(ctor_seed_shift=None)), ("njobs2", dict(n_jobs=2))]:
+            h = rl.run_segments(spec, [n], [], **kw)
+            count += 1
+            stats[f"rl-twin:{name}"] += 1
+            d = rl.diff(base, h)
+            if d:
+                chk.violation({"kind": "oracle", "clause": f"history-depends-on-{name}"},
+                              {"failed": "oracle:twin", "detail": f"RL line-up {spec['kinds']} eps={spec['eps']} model={spec.get('model')}: "
+                                                                  f"{name} {kw} changes {d}",
+                               "case": {"spec": spec, "n": n, "variant": name, "kw": kw}})
+    return count
+
+
 def run(chk, replay=None):
     chk.proof_gate()
     cases = [json.loads(open(replay).read())["case"]] if replay else gen_cases(chk)
     if replay and "spec" in cases[0]:
         c = cases[0]
-        kw = {"same": {}, "ctor-seeds": dict(ctor_seed_shift=17), "verbose": dict(verbose=True), "njobs2": dict(n_jobs=2),
-              "njobs4": dict(n_jobs=4), "folder": dict(folder=str(rl.scratch("c01_replay")))}[c["variant"]]
+        kw = c.get("kw") or {"same": {}, "ctor-seeds": dict(ctor_seed_shift=17), "verbose": dict(verbose=True), "njobs2": dict(n_jobs=2),
+                              "njobs4": dict(n_jobs=4), "folder": dict(folder=str(rl.scratch("c01_replay")))}[c["variant"]]
         d = rl.diff(rl.run_segments(c["spec"], [c["n"]], []), rl.run_segments(c["spec"], [c["n"]], [], **kw))
         print("differs in", d)
         return 1 if d else 0
     obs, bad, stats, keys, nontriv = cf.run_traces(chk, cases, lambda c, o: [], lambda c, o: max((v["batchidx"] for v in o["views"]), default=0) >= 2, label="C01")
     extra = Counter()
     n1 = reseed_forgets_ctor(chk, extra) if not replay else 0
-    n2 = twin_runs(chk, extra) if not replay else 0
+    n2 = (twin_runs(chk, extra) + rl_twins(chk, extra)) if not replay else 0
     stats.update(extra)
     cov = {
         "evaluations": len(cases) + n1 + n2, "distinct": len(keys) + n1 + n2, "distinct_nontrivial": len(nontriv) + n1 + n2,
